@@ -66,6 +66,8 @@ func uninterpDecls() string {
 	}
 	// facts about them (each is an assumption on the standard library)
 	sb.WriteString(`(assert (forall ((r Int)) (! (=> (and (<= 0 r) (< r 128)) (= (is_space r) (or (= r 9) (= r 10) (= r 11) (= r 12) (= r 13) (= r 32)))) :pattern ((is_space r)))))
+(assert (forall ((r Int)) (! (=> (and (<= 0 r) (< r 128)) (= (is_letter r) (or (and (<= 65 r) (<= r 90)) (and (<= 97 r) (<= r 122))))) :pattern ((is_letter r)))))
+(assert (forall ((r Int)) (! (=> (and (<= 0 r) (< r 128)) (= (is_digit_u r) (and (<= 48 r) (<= r 57)))) :pattern ((is_digit_u r)))))
 (assert (is_space 133))
 (assert (is_space 160))
 (assert (forall ((s Str) (t Str)) (! (and (<= (- 1) (str_index s t)) (=> (<= 0 (str_index s t)) (<= (+ (str_index s t) (slen t)) (slen s)))) :pattern ((str_index s t)))))
